@@ -28,6 +28,7 @@ class Call(Node):
     increment(3px)     --> 4px
     unknown(3px)       -->  unknown(3px)
     """
+    _internal = frozenset(dir(Node)) | frozenset(['parse'])
 
     def parse(self, scope):
         """Parse Node within scope.
@@ -48,13 +49,18 @@ class Call(Node):
             t for t in parsed
             if not isinstance(t, string_types) or t not in '(),'
         ]
-        if hasattr(self, name):
+        # Only LESS functions are dispatched: the node's own machinery
+        # (parse, process, tokens, ...) and the colour helpers are not callable
+        # from a stylesheet; such names pass through like any unknown function.
+        if name not in self._internal and callable(getattr(self, name, None)):
             try:
                 return getattr(self, name)(*args)
             except ValueError:
                 pass
 
-        if hasattr(color, name):
+        if (name not in ('process', 'operate', 'fmt')
+                and not name.startswith('_')
+                and callable(getattr(color, name, None))):
             try:
                 result = getattr(color, name)(*args)
                 try:
